@@ -5,6 +5,8 @@ ROOT = os.path.dirname(os.path.dirname(os.path.abspath(__file__)))
 TECH = "bounded symbolic execution of the real Go code (own go/ssa -> QF_BV SMT-LIB2 executor; z3 5.1 primary, z3 4.8.12 cross-check on verdict queries; counterexamples replayed natively)"
 TRUST = "Trusted: the gosx SSA interpreter and term simplifier (validated by native replay of every counterexample, by reachability witnesses and by a second solver on verdict queries), the SMT solvers, Go's compiler for the native replay. "
 CHECKS = {
+ "C07": dict(text="Inductive step of the real OutQueue/InQueue operations from an arbitrary state satisfying the representation invariant (head sequence number unconstrained over all 2^16 values, which covers wrap-around), plus a bounded run of the real client and server glue over a path with symbolic per-exchange fates, plus the real timeout/retransmission chain with a symbolic loss pattern.",
+             note="Window constant scaled to 4 except where stated; the DNS wire is cut out of the pair run (C09/C10); pair run bounded to k actions and <=3 faults; invariant is mine (DESIGN.md Appendix C) - a counterexample to induction is a violation of the step from an invariant state, reachability of that state is argued, not solved."),
  "C08": dict(text="Every path of Encode/Decode of each codec is executed symbolically over all 2^(8n) inputs of each length n within the bound; unsat of (path condition and not property) is the verdict. Bounded by input length; Base85 byte equality only for n<=1 (arithmetic kernel out of solver reach).",
              note="Outside: inputs longer than the bound (quick 8, thorough 16 bytes); Base85 round-trip bytes for n>=2."),
  "C19": dict(text="All wrapper compositions up to the depth bound and all call sequences up to the length bound are enumerated as symbolic choices over the real wrapper code with counting fakes underneath; complete within those bounds.",
